@@ -358,6 +358,82 @@ fn cmd_gen(args: &[String]) -> i32 {
     0
 }
 
+/// Lex inputs k in [from, from+n) of the differential sequence one by one and print
+/// `k inputhash outcomehash`; with --threads T > 1 the same inputs are then lexed concurrently on
+/// T threads and compared with the sequential results. Used under Miri / ThreadSanitizer and by
+/// the native build the sanitizer run is compared with.
+fn cmd_seq(args: &[String]) -> i32 {
+    let Some(prop) = args.first().cloned() else { return 2 };
+    let tier = if arg(args, "--tier") == Some("thorough") { Tier::Thorough } else { Tier::Quick };
+    let seed: u64 = arg(args, "--seed").and_then(|s| s.parse().ok()).unwrap_or(1);
+    let from: usize = arg(args, "--from").and_then(|s| s.parse().ok()).unwrap_or(0);
+    let n: usize = arg(args, "--n").and_then(|s| s.parse().ok()).unwrap_or(100);
+    let maxlen: usize = arg(args, "--maxlen").and_then(|s| s.parse().ok()).unwrap_or(1500);
+    let threads: usize = arg(args, "--threads").and_then(|s| s.parse().ok()).unwrap_or(1);
+    run::install_panic_hook();
+    // no corpus files under Miri isolation: the sequence must not depend on them
+    let corpus = Corpus { small: FIXED_SEEDS.iter().map(|s| (*s).to_string()).collect(), large: vec![] };
+    let mut inputs = Vec::new();
+    for k in from..from + n {
+        let s = diffprops::diff_input(&prop, seed, k, tier, &corpus);
+        if s.len() <= maxlen {
+            inputs.push((k, s));
+        }
+    }
+    for s in FIXED_SEEDS {
+        inputs.push((usize::MAX, (*s).to_string()));
+    }
+    let mut base = Vec::new();
+    for (k, s) in &inputs {
+        let ob = diffprops::outcome_bytes(&prop, s, None);
+        let h = view::hash128(&ob);
+        let class = if ob.starts_with(b"PANIC") || ob.starts_with(b"BUDGET") { String::from_utf8_lossy(&ob).chars().take(100).collect() } else { "ok".to_string() };
+        println!("{k} {:032x} {h:032x} {class}", view::hash128(s.as_bytes()));
+        base.push(h);
+    }
+    if threads > 1 {
+        let inputs = std::sync::Arc::new(inputs);
+        let base = std::sync::Arc::new(base);
+        let mut hs = Vec::new();
+        for t in 0..threads {
+            let (inputs, base, prop) = (inputs.clone(), base.clone(), prop.clone());
+            hs.push(std::thread::spawn(move || {
+                let mut bad = 0;
+                let len = inputs.len();
+                for j in 0..len {
+                    let i = (j * (2 * t + 1) + t) % len;
+                    let ob = diffprops::outcome_bytes(&prop, &inputs[i].1, None);
+                    if view::hash128(&ob) != base[i] {
+                        bad += 1;
+                    }
+                }
+                bad
+            }));
+        }
+        let mut bad = 0;
+        for h in hs {
+            bad += h.join().unwrap_or(1);
+        }
+        println!("CONCURRENT threads={threads} mismatches={bad}");
+    }
+    println!("SEQ-DONE {}", inputs_len_marker());
+    0
+}
+
+fn inputs_len_marker() -> &'static str {
+    "ok"
+}
+
+/// Inputs that must be part of every sanitizer run: minimal reproducers of past defects and one
+/// input per scanning loop / unsafe block.
+const FIXED_SEEDS: &[&str] = &[
+    "%do %m(a)=1 %to 3;", "%do%m%mm", "%do%do;", "%do%local%to", "%do %m %n;", "\"%eval(1", "%macro m / %;", "%copy%",
+    "%m(a%*c;b=1)", "datalines4;\n1 2;;;a", "\"% \"\"a\"", "%str(/%'a)", "%str(%%a)", "'+1'x", "datalines;\n1\n;\n* c;",
+    "18446744073709551616f8. x", "data a; set b; run;", "%let a=%eval(1+2);", "%macro m(a,b=1); * c; %mend;", "x = 'it''s' \"a\"\"b\"x;",
+    "%if &a eq 1 %then %do; %put x; %end; %else %do i=1 %to 3; %end;", "%sysfunc(f(1.5e3, a), best12.)", "&&a&b..c &&&x", "$char10. $é5.2 1e5 0ffx 12ab",
+    "%m /*c*/ (a=1, b %n(2) , 'x')", "é日😀 \u{feff} \u{a0}\n/* ü */ %* 'q;' ;", "cards4;\na;b\n;;;;", "%nrstr(%%&a%(%))", "AbCdEfGhIjKlMnOpQrStUvWxYz0123456789_ x", "%SYSMACDELETEE x; %sysmstoreclear;",
+];
+
 fn main() {
     let args: Vec<String> = std::env::args().skip(1).collect();
     let code = match args.first().map(String::as_str) {
@@ -367,6 +443,7 @@ fn main() {
         Some("lexfile") => cmd_lexfile(&args[1..]),
         Some("family") => cmd_family(&args[1..]),
         Some("gen") => cmd_gen(&args[1..]),
+        Some("seq") => cmd_seq(&args[1..]),
         Some("selfcheck") => match oracle::shapes::self_check() {
             Ok(()) => {
                 println!("ok");
